@@ -209,12 +209,12 @@ def routeTrace (w : World) (to : Nat) : List (Asset × Asset) → List (Nat × N
       | .ok w' => t :: routeTrace w' to rest
       | .error _ => [t]
 
-/-- which property a broken "failed call changes nothing" is attributed to -/
-def atomicityProp (kind : String) : String :=
-  if kind.startsWith "f_" || kind == "pair_upd" || kind == "pair_receive" || kind == "r_op" || kind == "r_assert" then "C14"
-  else if kind == "r_ops" || kind == "r_receive" then "C11"
-  else if kind == "pair_swap" || kind == "pair_provide" then "C09"
-  else "C07"
+/-- which property's "… fails and nothing changes" clause a rejected call that changed something violates -/
+def atomicityProp (op : Op) : String :=
+  match op with
+  | .router _ _ (.swapOps ..) | .router _ _ (.receive ..) | .tokSend _ _ _ _ (.routerOps ..) => "C11"
+  | .pair _ _ _ (.swap ..) | .pair _ _ _ (.provide ..) => "C09"
+  | _ => "C14"
 
 def isLpToken (st : WorldSt) (t : Nat) : Option Nat :=
   -- the pair whose LP token `t` is, according to the implementation's `pair` observations
@@ -246,8 +246,8 @@ def stepHasWindowSwap (pd : Pending) (_st : WorldSt) : Bool :=
 
 /-- the same decision from the implementation's observations alone, for use after the sequence has diverged from
 the model: `some b` for everything but router routes (whose per-hop amounts only the model knows), `none` for those -/
-def obsWindowSwap (pd : Pending) (st : WorldSt) : Option Bool :=
-  let one (p : Nat) (offer : Asset) (amt : Nat) (funds : List (Nat × Nat)) : Option Bool :=
+def obsWindowSwap (pd : Pending) (st : WorldSt) : Option (List Nat) :=
+  let one (p : Nat) (offer : Asset) (amt : Nat) (funds : List (Nat × Nat)) : Option (List Nat) :=
     match pairViewOf (curVal st s!"pair {p}") with
     | some v =>
       if !poolReadable (prevValFirst st s!"pool {p}") then none else
@@ -255,15 +255,15 @@ def obsWindowSwap (pd : Pending) (st : WorldSt) : Option Bool :=
       let ask := if offer = v.a0 then v.a1 else v.a0
       let x := if offer = v.a0 then r0 else r1
       let y := (if offer = v.a0 then r1 else r0) + fundsOf funds ask
-      some (inWindow x y amt)
+      some (if inWindow x y amt then [p] else [])
     | none => none
   match pd.op with
   | .pair _ p funds (.swap offer amt _ _ _) => one p offer amt funds
   | .pair _ p _ (.receive _ amt (.swap offer _ _ _ _)) => one p offer amt []
-  | .tokSend _ _ d amt (.swap offer _ _ _ _) => if st.pairsSeen.contains d then one d offer amt [] else some false
+  | .tokSend _ _ d amt (.swap offer _ _ _ _) => if st.pairsSeen.contains d then one d offer amt [] else some []
   | .tokSend _ _ _ _ (.routerOps ..) => none
   | .router .. => none
-  | _ => some false
+  | _ => some []
 
 /-- accounts an operation may touch (C07) -/
 def touched (st : WorldSt) (op : Op) : List Nat :=
@@ -307,13 +307,16 @@ def oracles (st : WorldSt) (pd : Pending) (post : Bool := false) : List (String 
     match k.splitOn " " with
     | ["bal", a, who] => some (parseAsset a, who.toNatD, (n.toNatD : Int) - (o.toNatD : Int))
     | _ => none
-  let windowedO : Option Bool := if post then obsWindowSwap pd st else some (stepHasWindowSwap pd st)
-  let windowed := windowedO.getD false
-  let kw := if windowed then "known=KF-SWAP-WINDOW " else ""
+  -- the pairs on which this step performs an in-window swap (known finding KF-SWAP-WINDOW): only a failure of C01 / C03
+  -- on one of *those* pairs carries the tag
+  let windowedO : Option (List Nat) :=
+    if post then obsWindowSwap pd st
+    else some (((swapsOn pd.wBefore pd.op).filter fun (_, x, y, a) => inWindow x y a).map (·.1))
+  let kwOf (p : Nat) : String := if (windowedO.getD []).contains p then "known=KF-SWAP-WINDOW " else ""
   -- a failed call changes nothing
   if !pd.implOk then
     if !(st.changes.filter fun c => c.2.1 ≠ "").isEmpty then
-      out := out ++ [(atomicityProp pd.kind, s!"a rejected call changed {(st.changes.head?.map (·.1)).getD ""}")]
+      out := out ++ [(atomicityProp pd.op, s!"a rejected call changed {(st.changes.head?.map (·.1)).getD ""}")]
   -- C10 / C15, completeness: a call rejected *by the guard* lies outside the bound the property allows.
   -- The would-be amounts of a rejected swap are those of the pair's own quote taken immediately before,
   -- used only when they satisfy the C06 bracket on the observed reserves.
@@ -370,7 +373,7 @@ def oracles (st : WorldSt) (pd : Pending) (post : Bool := false) : List (String 
     let (r0', r1', S') := poolOf (curVal st s!"pool {p}")
     if S > 0 && poolReadable (curVal st s!"pool {p}") then
       if !(decide (0 < S') && decide (r0 * r1 * (S' * S') ≤ r0' * r1' * (S * S))) then
-        out := out ++ [("C03", s!"{kw}share value of pair {p} decreased: ({r0},{r1},{S}) -> ({r0'},{r1'},{S'})")]
+        out := out ++ [("C03", s!"{kwOf p}share value of pair {p} decreased: ({r0},{r1},{S}) -> ({r0'},{r1'},{S'})")]
   if pd.implOk then
     -- C07: frame and conservation
     let tch := touched st pd.op
@@ -393,7 +396,13 @@ def oracles (st : WorldSt) (pd : Pending) (post : Bool := false) : List (String 
          && (match pd.op with | .pair _ _ _ (.receive f _ _) => who ≠ f | .router _ _ (.receive f _ _) => who ≠ f | _ => true)
          && d < 0 then
         out := out ++ [("C07", s!"balance of the designated receiver {who} in {showAsset a} fell by {-d}")]
-    let assets := (changedBal.map (·.1)).eraseDups
+    -- balances are observed for the first eight pairs only: a route that reaches a later pair through the registry moves
+    -- coins into an unobserved account, so the sums say nothing then
+    let isRouteOp := match pd.op with
+      | .router .. => true
+      | .tokSend _ _ _ _ (.routerOps ..) => true
+      | _ => false
+    let assets := if isRouteOp && st.pairsSeen.length > 8 then [] else (changedBal.map (·.1)).eraseDups
     for a in assets do
       let sum := (changedBal.filter (fun c => c.1 = a)).foldl (fun s c => s + c.2.2) (0 : Int)
       match a with
@@ -402,7 +411,9 @@ def oracles (st : WorldSt) (pd : Pending) (post : Bool := false) : List (String 
         let ds : Int := ((curVal st s!"supply {t}").toNatD : Int) - ((prevValFirst st s!"supply {t}").toNatD : Int)
         if sum ≠ ds then out := out ++ [("C07", s!"balances of {showAsset a} changed by {sum} but supply by {ds}")]
         match isLpToken st t with
-        | none => if ds ≠ 0 then out := out ++ [("C07", s!"supply of non-LP token {t} changed")]
+        | none =>
+          let ownBurn := match pd.op with | .tokBurn .. => true | _ => false
+          if ds ≠ 0 && !ownBurn then out := out ++ [("C07", s!"supply of non-LP token {t} changed")]
         | some _ =>
           let lpOk := match pd.op with
             | .pair _ _ _ (.provide ..) => true
@@ -434,7 +445,7 @@ def oracles (st : WorldSt) (pd : Pending) (post : Bool := false) : List (String 
          | none =>
            match offer with
             | .native d => out := out ++ fails "C09" "native offer not matched by attached funds" (firstCoin funds d = amt)
-            | .token _ => out := out ++ [("C14", "execute-swap accepted a token offer")]
+            | .token _ => out := out ++ [("C02", "execute-swap accepted a token offer (nothing was delivered in this transaction)")]
         if offer = v.a0 || offer = v.a1 then
           out := out ++ fails "C02" "pair's offer reserve did not rise by exactly the offered amount"
             (delta st offer p = (amt : Int) + (if viaTok.isSome then 0 else (fundsOf funds offer : Int) - (amt : Int)) && (viaTok.isSome || fundsOf funds offer = amt))
@@ -452,7 +463,7 @@ def oracles (st : WorldSt) (pd : Pending) (post : Bool := false) : List (String 
           let askAfter := if ask = v.a1 then r1' else r0'
           let askBefore := if ask = v.a1 then r1 else r0
           if windowedO.isSome && !(decide (r0 * r1 ≤ r0' * r1') && (decide (0 < askAfter) || askBefore = 0)) then
-            out := out ++ [("C01", s!"{kw}reserve product fell or ask reserve emptied: ({r0},{r1}) -> ({r0'},{r1'})")]
+            out := out ++ [("C01", s!"{kwOf p}reserve product fell or ask reserve emptied: ({r0},{r1}) -> ({r0'},{r1'})")]
           -- C06 on reported amounts
           let x := if offer = v.a0 then r0 else r1
           let y := (if offer = v.a0 then r1 else r0) + fundsOf funds ask
@@ -516,7 +527,7 @@ def oracles (st : WorldSt) (pd : Pending) (post : Bool := false) : List (String 
         else
           out := out ++ fails "C05" "first provision: gate or supply wrong"
             (Spec.c05Empty s { whitelist := v.wl, min0 := v.min0, min1 := v.min1 } d0 d1 S' && m + 1 = S' &&
-             delta st (.token v.lp) v.lp = 1)
+             delta st (.token v.lp) v.lp = 1 + (if rcv = v.lp then (m : Int) else 0))
       | _, _ => pure ()
     | _ => pure ()
     -- withdraw
@@ -545,8 +556,14 @@ def oracles (st : WorldSt) (pd : Pending) (post : Bool := false) : List (String 
       | .router s funds (.swapOps ops mn to) =>
         (match ops.head? with
          | some (o, _) => some (s, ops, mn, to, fundsOf funds o, o, funds)
-         | none => none)
+         | none => some (s, [], mn, to, 0, .native 0, funds))
       | .tokSend t s d amt (.routerOps ops mn to) => if d = st.w.router then some (s, ops, mn, to, amt, .token t, []) else none
+      -- a raw `Receive` sent to the router by anybody: the route runs on whatever the router holds; the default
+      -- recipient is the `sender` field of the forged message
+      | .router _ _ (.receive f _ (.routerOps ops mn to)) =>
+        (match ops.head? with
+         | some (o, _) => some (f, ops, mn, to, 0, o, [])
+         | none => some (f, [], mn, to, 0, .native 0, []))
       | _ => none
     match rt with
     | some (s, ops, mn, to, paidAmt, paidAsset, funds) =>
@@ -689,7 +706,7 @@ def finalize (st : WorldSt) : WorldSt × List String × Option Verdict :=
       let orc := oracles st pd true
       let outs := orc.map fun (p, note) => s!"ORACLE-FAIL {p} {note} :: {pd.line}"
       let v : Verdict := { diverge := none, oracle := orc, nontrivial := pd.implOk, tags := ["post-divergence"] }
-      ({ st with pending := none, changes := [] }, outs, if orc.isEmpty then none else some v)
+      ({ st with pending := none, changes := [], lastSim := none, lastRouteSim := none }, outs, if orc.isEmpty then none else some v)
     else
       let bad := st.keys.toList.filterMap fun k =>
         let mv := modelObs st.w k
@@ -703,7 +720,8 @@ def finalize (st : WorldSt) : WorldSt × List String × Option Verdict :=
          | none => []) ++
         orc.map fun (p, note) => s!"ORACLE-FAIL {p} {note} :: {pd.line}"
       let v : Verdict := { diverge := div, oracle := orc, nontrivial := pd.implOk, tags := [pd.kind ++ (if pd.implOk then "+" else "-")] }
-      ({ st with pending := none, changes := [], desync := st.desync || div.isSome }, outs, some v)
+      -- a quote is compared with the one step that immediately follows it, never with a later one
+      ({ st with pending := none, changes := [], desync := st.desync || div.isSome, lastSim := none, lastRouteSim := none }, outs, some v)
 
 def kv (toks : List String) (k : String) : String :=
   match toks.find? (fun t => t.startsWith (k ++ "=")) with
